@@ -157,7 +157,7 @@ def run_skip(rep, thorough):
                         continue
                     inside = And(UGE(r2.v, first[cb]), ULE(r2.v, first[cb] + rc[cb])) if cb < K else BoolVal(False)
                     claim = And(r2.v == row + Extract(31, 0, cnt), If(fin, UGE(r2.v, total), inside))
-                    stv, mdl = check(pc, claim)
+                    stv, mdl = check(pc, claim, timeout=600000 if thorough else 120000)
                     if stv == 'unsat':
                         rep.obligation(True)
                         rep.sample({'obligation': desc, 'verdict': 'the iterator stays on the block holding its row, for every rows-per-block, position and count within the bounds'}, cap=4)
